@@ -707,6 +707,16 @@ int _vnacal_new_add_common(vnacal_new_add_arguments_t vnaa)
     }
 
     /*
+     * Validate all parameters of the S matrix before adding any.
+     */
+    for (int s_cell = 0; s_cell < s_cells; ++s_cell) {
+	if (_vnacal_new_check_parameter(function, vnp,
+		    s_matrix[s_cell]) == -1) {
+	    goto out;
+	}
+    }
+
+    /*
      * Allocate and init the vnacal_new_measurement_t structure and its
      * vectors of per-frequency M values.
      */
@@ -829,12 +839,14 @@ int _vnacal_new_add_common(vnacal_new_add_arguments_t vnaa)
 		"calloc: %s", strerror(errno));
 	goto out;
     }
+    /*
+     * Mark the given cells with a placeholder for now.  The parameters
+     * themselves are added to the vnacal_new_t structure only after
+     * the remaining argument checks have passed so that a rejected
+     * standard doesn't leave parameters (and unknowns) behind.
+     */
     for (int s_cell = 0; s_cell < s_cells; ++s_cell) {
-	if ((full_s_matrix[s_cell_map[s_cell]] =
-		    _vnacal_new_get_parameter(function, vnp,
-			s_matrix[s_cell])) == NULL) {
-	    goto out;
-	}
+	full_s_matrix[s_cell_map[s_cell]] = vnp->vn_zero;
     }
 
     /*
@@ -909,6 +921,17 @@ int _vnacal_new_add_common(vnacal_new_add_arguments_t vnaa)
 			vnp->vn_measurement_count + 1, s_cell);
 		goto out;
 	    }
+	}
+    }
+
+    /*
+     * All argument checks have passed: add the parameters.
+     */
+    for (int s_cell = 0; s_cell < s_cells; ++s_cell) {
+	if ((full_s_matrix[s_cell_map[s_cell]] =
+		    _vnacal_new_get_parameter(function, vnp,
+			s_matrix[s_cell])) == NULL) {
+	    goto out;
 	}
     }
 
